@@ -390,6 +390,19 @@ field {fold_field:?} produced an invalid value when resolving @tag: {value:?}",
     }
 }
 
+/// Ordering comparisons against a null tag value are never satisfied,
+/// and a range cannot be bounded by null: no value is a candidate.
+fn ordering_candidate(
+    value: FieldValue,
+    make_range: impl FnOnce(FieldValue) -> Range<FieldValue>,
+) -> CandidateValue<FieldValue> {
+    if matches!(value, FieldValue::Null) {
+        CandidateValue::Impossible
+    } else {
+        CandidateValue::Range(make_range(value))
+    }
+}
+
 fn compute_candidate_from_operation<'vertex, Vertex: Debug + Clone + 'vertex>(
     operation: &Operation<(), ()>,
     initial_candidate: CandidateValue<FieldValue>,
@@ -410,34 +423,42 @@ fn compute_candidate_from_operation<'vertex, Vertex: Debug + Clone + 'vertex>(
         }
         Operation::LessThan(_, _) => {
             compute_candidate_from_tagged_value!(iterator, initial_candidate, candidate, value, {
-                candidate.intersect(CandidateValue::Range(Range::with_end(
-                    Bound::Excluded(value),
-                    true, // nullability is handled in the initial_candidate
-                )));
+                candidate.intersect(ordering_candidate(value, |value| {
+                    Range::with_end(
+                        Bound::Excluded(value),
+                        true, // nullability is handled in the initial_candidate
+                    )
+                }));
             })
         }
         Operation::LessThanOrEqual(_, _) => {
             compute_candidate_from_tagged_value!(iterator, initial_candidate, candidate, value, {
-                candidate.intersect(CandidateValue::Range(Range::with_end(
-                    Bound::Included(value),
-                    true, // nullability is handled in the initial_candidate
-                )));
+                candidate.intersect(ordering_candidate(value, |value| {
+                    Range::with_end(
+                        Bound::Included(value),
+                        true, // nullability is handled in the initial_candidate
+                    )
+                }));
             })
         }
         Operation::GreaterThan(_, _) => {
             compute_candidate_from_tagged_value!(iterator, initial_candidate, candidate, value, {
-                candidate.intersect(CandidateValue::Range(Range::with_start(
-                    Bound::Excluded(value),
-                    true, // nullability is handled in the initial_candidate
-                )));
+                candidate.intersect(ordering_candidate(value, |value| {
+                    Range::with_start(
+                        Bound::Excluded(value),
+                        true, // nullability is handled in the initial_candidate
+                    )
+                }));
             })
         }
         Operation::GreaterThanOrEqual(_, _) => {
             compute_candidate_from_tagged_value!(iterator, initial_candidate, candidate, value, {
-                candidate.intersect(CandidateValue::Range(Range::with_end(
-                    Bound::Included(value),
-                    true, // nullability is handled in the initial_candidate
-                )));
+                candidate.intersect(ordering_candidate(value, |value| {
+                    Range::with_end(
+                        Bound::Included(value),
+                        true, // nullability is handled in the initial_candidate
+                    )
+                }));
             })
         }
         Operation::OneOf(_, _) => {
